@@ -113,6 +113,20 @@ func buildContract(sender util.Uint160, name string) *neotest.Contract {
 			emit.Instruction(w, opcode.JMP, []byte{byte(256 - (1 + 5 + 2 + 1 + 1 + 5 + 1))})
 			emit.Opcodes(w, opcode.LDLOC0, opcode.RET)
 		}},
+		// wget(key, value, delKey, readKey): the invocation writes and deletes first, then reads one key
+		{"wget", []smartcontract.ParamType{ba, ba, ba, ba}, ba, false, func(w *io.BinWriter) {
+			emit.Instruction(w, opcode.INITSLOT, []byte{0, 4})
+			emit.Opcodes(w, opcode.LDARG1, opcode.LDARG0)
+			emit.Syscall(w, interopnames.SystemStorageGetContext)
+			emit.Syscall(w, interopnames.SystemStoragePut)
+			emit.Opcodes(w, opcode.LDARG2)
+			emit.Syscall(w, interopnames.SystemStorageGetContext)
+			emit.Syscall(w, interopnames.SystemStorageDelete)
+			emit.Opcodes(w, opcode.LDARG3)
+			emit.Syscall(w, interopnames.SystemStorageGetContext)
+			emit.Syscall(w, interopnames.SystemStorageGet)
+			emit.Opcodes(w, opcode.RET)
+		}},
 		// wfind(key, value, delKey, prefix, opts): the invocation writes and deletes first, then searches
 		// (the search sees its own uncommitted writes through the private cache layer)
 		{"wfind", []smartcontract.ParamType{ba, ba, ba, ba, in}, smartcontract.ArrayType, false, func(w *io.BinWriter) {
@@ -393,6 +407,16 @@ func runFind(bc *core.Blockchain, e *neotest.Executor, script []byte, nextHeight
 	})
 }
 
+func runGet(bc *core.Blockchain, e *neotest.Executor, script []byte, nextHeight uint32, historic bool) string {
+	return hx.Safe(func() string {
+		ic, err := newCtx(bc, e, script, nextHeight, historic)
+		if err != nil {
+			return "err:" + err.Error()
+		}
+		return execGet(ic, script)
+	})
+}
+
 // newCtx only CREATES the invocation context (live, or historic on the state of nextHeight-1); the
 // script is executed later with execFind / execGet — possibly after further blocks were stored.
 func newCtx(bc *core.Blockchain, e *neotest.Executor, script []byte, nextHeight uint32, historic bool) (*interop.Context, error) {
@@ -659,6 +683,7 @@ type heightRec struct {
 	root  util.Uint256
 	reads []string // results of the fixed read sample at this height
 	finds []string // results of the case's System.Storage.Find sample at this height
+	gets  []string // results of the case's System.Storage.Get sample at this height
 }
 
 // findRead is one System.Storage.Find invocation: contract, prefix, option word and (wfind) the
@@ -672,6 +697,42 @@ type findRead struct {
 	val    []byte
 	del    []byte
 	script []byte
+}
+
+// getRead is one System.Storage.Get invocation, optionally after the invocation's own put and delete.
+type getRead struct {
+	id     int32
+	key    []byte
+	write  bool
+	wk     []byte
+	wv     []byte
+	wd     []byte
+	script []byte
+}
+
+func (g *getRead) line(at string) string {
+	l := fmt.Sprintf("getw %s %s %s", at, hx.Hex(idKey(g.id, nil)), hx.Hex(g.key))
+	if g.write {
+		l += fmt.Sprintf(" %s %s %s del", hx.Hex(g.wk), hx.Hex(g.wv), hx.Hex(g.wd))
+	}
+	return l
+}
+
+// expect: the value the read must give on storage dump d.
+func (g *getRead) expect(d dump) string {
+	rk := string(idKey(g.id, g.key))
+	if g.write {
+		if bytes.Equal(g.key, g.wd) {
+			return "none"
+		}
+		if bytes.Equal(g.key, g.wk) {
+			return hx.Hex(g.wv)
+		}
+	}
+	if v, ok := d[rk]; ok {
+		return hx.Hex(v)
+	}
+	return "none"
 }
 
 // line is the op line for the Lean driver: at = "live" / a height.
@@ -799,6 +860,26 @@ func runCase(o *hx.Out, f *hx.Flags, k int, t *tb) {
 		key := genKey(r, 0)
 		reads = append(reads, read{fmt.Sprintf("get %x", key), callScript(c.Hash, "get", key)})
 	}
+	// the case's sample of System.Storage.Get invocations (half of them after own writes), run live
+	// at every height and historically; both results also go to the Lean driver
+	var gets []*getRead
+	for i := 0; i < 10; i++ {
+		g := &getRead{id: ids[0], key: genKey(r, 0)}
+		if i >= 5 {
+			g.write = true
+			g.wk, g.wv, g.wd = genKey(r, 0), genVal(r), genKey(r, 0)
+			switch r.Intn(3) {
+			case 0:
+				g.key = g.wk
+			case 1:
+				g.key = g.wd
+			}
+			g.script = callScript(c.Hash, "wget", g.wk, g.wv, g.wd, g.key)
+		} else {
+			g.script = callScript(c.Hash, "get", g.key)
+		}
+		gets = append(gets, g)
+	}
 	roleHash := e.NativeHash(t, nativenames.Designation)
 	roles := []noderoles.Role{noderoles.StateValidator, noderoles.Oracle}
 	for _, role := range roles {
@@ -830,6 +911,9 @@ func runCase(o *hx.Out, f *hx.Flags, k int, t *tb) {
 		for _, fr := range finds {
 			rec.finds = append(rec.finds, runFind(bc, e, fr.script, 0, false))
 		}
+		for _, g := range gets {
+			rec.gets = append(rec.gets, runGet(bc, e, g.script, 0, false))
+		}
 		recs[h] = rec
 	}
 	// emitFinds: the live results of height h go to the driver (whose live-side model store is at
@@ -837,6 +921,13 @@ func runCase(o *hx.Out, f *hx.Flags, k int, t *tb) {
 	// of the ordered prefix range of the storage dump.
 	emitFinds := func(h uint32) {
 		rec := recs[h]
+		for i, g := range gets {
+			o.Line(g.line("live"), rec.gets[i])
+			if want := g.expect(rec.d); rec.gets[i] != want {
+				o.Fail("get-live-mismatch", k, "height %d %s: got %s want %s", h, g.line("live"), rec.gets[i], want)
+			}
+			o.Count("get-live")
+		}
 		for i, fr := range finds {
 			got := rec.finds[i]
 			o.Line(fr.line("live"), got)
@@ -1507,6 +1598,17 @@ func runCase(o *hx.Out, f *hx.Flags, k int, t *tb) {
 					o.Fail("historic-invoke-mismatch:"+strings.Fields(rd.desc)[0], k, "height %d %s: historic %s live %s", h, rd.desc, got, rec.reads[i])
 				}
 				o.Count("historic-invoke")
+			}
+			for i, g := range gets {
+				if h < deployedAt {
+					continue
+				}
+				got := runGet(bc, e, g.script, h+1, true)
+				o.Line(g.line(fmt.Sprint(h)), got)
+				if got != rec.gets[i] {
+					o.Fail("historic-invoke-mismatch:getw", k, "height %d %s: historic %s live %s", h, g.line("h"), got, rec.gets[i])
+				}
+				o.Count("historic-get")
 			}
 			for i, fr := range finds {
 				if h < deployedAt || (r.Chance(1, 3) && h != top) {
